@@ -66,6 +66,9 @@ def gen_json(r):
             inner = json.dumps({"inner": extra, "deep": {"x": [extra[0]]}})
             if k < 0.7:
                 inner = inner.replace("/", "\\/")          # the embedded document escapes its slashes (PHP json_encode style)
+            # JSON in a string in JSON in a string …: state blobs are often embedded more than once
+            for _ in range(r.choice([0, 0, 1, 1, 2])):
+                inner = json.dumps({"state": inner, "n": r.randrange(9)} if r.random() < 0.6 else [inner])
             doc["embedded"] = inner
     body = json.dumps(doc, indent=r.choice([None, None, 2]))
     if r.random() < 0.3:
